@@ -414,3 +414,79 @@ pub fn draw_plain(t: &mut Tape, len: usize) -> Vec<u8> {
 pub fn draw_bytes(t: &mut Tape, n: usize) -> Vec<u8> {
     (0..n).map(|_| t.byte()).collect()
 }
+
+/// Plaintext constructed so that the literal-only LZMA encoder (lc=3, lp=0, pb=2,
+/// which is exactly the reference encoder fed with literals) builds up a run of
+/// pending 0xFF bytes in its range coder and then resolves it with a carry — the
+/// "carry propagation through 0xFF bytes" case, which random data reaches with
+/// probability ~1e-10 per byte for runs of four or more. Greedy search over the
+/// next byte, guided by a clone of the encoder state. Returns the plaintext and
+/// the longest pending run that a carry resolved.
+pub fn carry_stress_plain(t: &mut Tape) -> (Vec<u8>, u64) {
+    let props = Props { lc: 3, lp: 0, pb: 2 };
+    let mut enc = RefEnc::new(props, 1 << 23);
+    enc.keep_trace = false;
+    let mut plain: Vec<u8> = Vec::new();
+    for _ in 0..t.below(24) {
+        let b = t.byte();
+        let _ = enc.encode(Sym::Lit(b));
+        plain.push(b);
+    }
+    let mut best_resolved = 0u64;
+    let want = t.range(4, 7);
+    for _round in 0..4 {
+        // phase 1: grow the pending run
+        let mut steps = 0;
+        while enc.pending_bytes() < want + 1 && steps < 60 {
+            steps += 1;
+            let start = t.below(256) as usize;
+            let mut best: Option<((u64, u64), u8)> = None;
+            for k in 0..256usize {
+                let b = ((start + k) & 0xFF) as u8;
+                let mut e2 = enc.clone();
+                let _ = e2.encode(Sym::Lit(b));
+                // longest pending run first, then `low` as close to the top as possible
+                // (stays in the 0xFF.. region and is ready to carry)
+                let key = (e2.pending_bytes(), e2.low() & 0xFFFF_FFFF);
+                if best.map(|x| key > x.0).unwrap_or(true) {
+                    best = Some((key, b));
+                }
+            }
+            let (_, b) = best.unwrap();
+            let _ = enc.encode(Sym::Lit(b));
+            plain.push(b);
+        }
+        // phase 2: resolve it with a carry: the flushed run comes out as 0x00 bytes
+        let pending = enc.pending_bytes();
+        let before = enc.emitted().len();
+        let start = t.below(256) as usize;
+        let mut done = false;
+        for k in 0..256usize {
+            let b = ((start + k) & 0xFF) as u8;
+            let mut e2 = enc.clone();
+            let _ = e2.encode(Sym::Lit(b));
+            let out = e2.emitted();
+            if out.len() >= before + pending as usize && pending >= 2 {
+                let run = &out[before + 1..before + pending as usize];
+                if run.iter().all(|x| *x == 0x00) {
+                    let _ = enc.encode(Sym::Lit(b));
+                    plain.push(b);
+                    best_resolved = best_resolved.max(pending - 1);
+                    done = true;
+                    break;
+                }
+            }
+        }
+        if !done {
+            let b = t.byte();
+            let _ = enc.encode(Sym::Lit(b));
+            plain.push(b);
+        }
+        for _ in 0..t.below(6) {
+            let b = t.byte();
+            let _ = enc.encode(Sym::Lit(b));
+            plain.push(b);
+        }
+    }
+    (plain, best_resolved)
+}
